@@ -16,6 +16,7 @@ THEOREMS = [
     "C35_capadv_roundtrip", "C35_cmdreq_roundtrip", "C35_lsargs_roundtrip", "C35_fetchargs_roundtrip", "C35_lsout_roundtrip",
     "C35_fetchout_roundtrip", "C35_fetchout_noready_refuted", "C35_fetchout_position",
     "C35_shupd_git", "C35_uphav_git", "C35_srvresp_git", "C35_report_git", "C35_pushopts_git", "C35_capadv_git", "C35_lsout_git", "C35_ulreq_git",
+    "C35_advrefs_git", "C35_updreq_git", "C35_cmdreq_git", "C35_lsargs_git", "C35_fetchargs_git",
 ]
 MODEL_FILES = ["PktLine.v", "C35UniTable.v", "C35Utf8.v", "Packp.v", "PackpV2.v"]
 MODELLED = ("plumbing/protocol/capability/list.go DecodeList / Add / AppendText; plumbing/objectid.go FromHex / NewHash / String / IsZero / Compare; "
